@@ -141,6 +141,11 @@ def round_trip_case(top, depth, mode=None, cls_index=0):
                 v = [inner_value(ctx, "e0", depth - 1), pick_leaf(ctx, "e1", SMALL[:3])]
             elif mode == "two-leaves":
                 v = [pick_leaf(ctx, "e0", LEAVES), pick_leaf(ctx, "e1", LEAVES)]
+            elif mode == "aliased":
+                # the same list / object occurs several times in the value (a finite value, not a cycle)
+                inner = inner_value(ctx, "e0", depth - 1)
+                shared = [inner] if ctx.flag("wrap") else inner
+                v = [shared, shared] if ctx.flag("twice") else [shared, [shared], JA(shared, [shared] if isinstance(shared, list) else [])]
             else:
                 v = []
         else:
@@ -176,7 +181,7 @@ def round_trip_case(top, depth, mode=None, cls_index=0):
 def cases(tier, seed):
     depth = 2 if tier == "quick" else 3
     cs = [Case("leaf values", round_trip_case("leaf", 0), validate=0)]
-    for mode in ("empty", "one-nested", "nested+leaf", "two-leaves"):
+    for mode in ("empty", "one-nested", "nested+leaf", "two-leaves", "aliased"):
         cs.append(Case("lists|%s|depth<=%d" % (mode, depth), round_trip_case("list", depth, mode), key="lists|" + mode, validate=0, timeout=900 if tier == "quick" else 3000, max_paths=2000000))
     for ci, c in enumerate(CLASSES):
         for mode in ("x-nested", "x-leaf", "items-nested", "items-two"):
